@@ -188,6 +188,25 @@ def check_tables(ctx):
                used_maps == {names['map']} and used_delims == {names['delims']}, loc=qf.loc,
                detail='maps %s, delims %s' % (sorted(used_maps), sorted(used_delims)))
         check_quote_shape(ctx, qf, names)
+    # '+' means space only in the *raw* query text: it is translated before percent-decoding, so that an escaped
+    # '%2B' survives as a literal '+'
+    n_plus = 0
+    for n in ast.walk(parse_qsl.node):
+        if isinstance(n, ast.Call) and isinstance(n.func, ast.Attribute) and n.func.attr == 'replace' and n.args and \
+                isinstance(n.args[0], ast.Constant) and n.args[0].value == '+':
+            n_plus += 1
+            recv_has_unquote = any(isinstance(x, ast.Call) and call_name(x) in ('unquote', 'unquote_to_bytes') for x in ast.walk(n.func.value))
+            # also through a local: key = unquote(key); key = key.replace(...)
+            if isinstance(n.func.value, ast.Name):
+                v = n.func.value.id
+                for a in ast.walk(parse_qsl.node):
+                    if isinstance(a, ast.Assign) and any(txt(t) == v for t in a.targets) and a.lineno < n.lineno and \
+                            any(isinstance(x, ast.Call) and call_name(x) in ('unquote', 'unquote_to_bytes') for x in ast.walk(a.value)):
+                        recv_has_unquote = True
+            ctx.ob('T9.plus', parse_qsl.fq, "'+' is turned into a space before percent-decoding (a decoded '%2B' stays '+')",
+                   not recv_has_unquote, loc='%s:%d' % (mod.relpath, n.lineno), detail=txt(n))
+    if n_plus == 0:
+        ctx.unknown('T9.plus', parse_qsl.fq, "no .replace('+', ...) found", parse_qsl.loc)
     check_make_quote_map(ctx, prog.func(MOD + '._make_quote_map'))
     # _HEX_CHAR_MAP ------------------------------------------------------------------
     hexmap = const('_HEX_CHAR_MAP')
